@@ -878,3 +878,31 @@ func witnessString(p *Prog, path []ssa.Instruction) string {
 	}
 	return strings.Join(out, " -> ")
 }
+
+// ReturnValues returns the values a Return yields, looking through the spill of
+// named results: in functions with defers go/ssa stores each result into the
+// named-result alloc right before `rundefers; return *alloc`.  For such results
+// the value of the last store to that alloc in the returning block is used.
+func ReturnValues(ret *ssa.Return) []ssa.Value {
+	out := make([]ssa.Value, len(ret.Results))
+	for i, r := range ret.Results {
+		out[i] = r
+		u, ok := r.(*ssa.UnOp)
+		if !ok || u.Op != token.MUL {
+			continue
+		}
+		al, ok := u.X.(*ssa.Alloc)
+		if !ok {
+			continue
+		}
+		for _, in := range ret.Block().Instrs {
+			if in == ssa.Instruction(u) {
+				break
+			}
+			if st, ok := in.(*ssa.Store); ok && st.Addr == ssa.Value(al) {
+				out[i] = st.Val
+			}
+		}
+	}
+	return out
+}
